@@ -75,10 +75,11 @@ class TinyDB(DataBase):
         attribute: str
             attribute to be searched for
         """
-        nested_fields = attribute.split(".")
+        # The attribute path is relative to the message, which is stored under "dataObject"
+        nested_fields = ["dataObject"] + attribute.split(".")
         # Dynamically build the query
         for field in nested_fields:
-            query = getattr(query, field)
+            query = query[field]
 
         return query
 
